@@ -29,6 +29,7 @@ PINS = [
     'mesonbuild.rewriter:Rewriter.process_target',
     'mesonbuild.rewriter:Rewriter.add_src_or_extra',
     'mesonbuild.rewriter:Rewriter.rm_src_or_extra',
+    'mesonbuild.rewriter:Rewriter.get_relto',
     'mesonbuild.rewriter:MTypeList',
     'mesonbuild.rewriter:MTypeStrList',
     'mesonbuild.rewriter:MTypeIDList',
@@ -40,8 +41,11 @@ TRUSTED = [
     'the real mparser.Parser / Lexer are used by the oracle to read files back (spans, token stream, trees)',
     'CPython str.splitlines / str.isspace / re `\\s` tables are re-extracted per run into Generated/PrecTable.lean',
     'node selection (dataflow DAG, add_src_or_extra / rm_src_or_extra choice of node) is not modelled: validated per run by the value oracle',
-    'domain: generated single-directory projects (no subdir()), LF line ends, source lists given inline / by variable / by files(); '
-    'right operands of and/or are never a parenthesised and/or of the same kind',
+    'domain: generated projects of one directory and trees with 1-3 subdir()s (targets in subdirs, lists built in one directory and '
+    'consumed in another, same basenames in several directories, ../ paths), LF line ends, source lists given inline / by variable / '
+    'by files(); right operands of and/or are never a parenthesised and/or of the same kind',
+    'path semantics used by the value oracle (meson): a plain string is relative to the directory of the target that consumes it, '
+    'a string inside files(...) to the directory of the meson.build holding that call; command paths are relative to the source root',
 ]
 
 
@@ -66,9 +70,13 @@ def _line_index(lines: T.List[T.Tuple[int, str]], lineno: int) -> int:
     return idx
 
 
-def oracle_step(bf: str, af: str, cmd: T.Dict[str, T.Any], status: str, meta: T.Dict[str, T.Any],
-                cap_applied: bool = False, nested: bool = False) -> T.Dict[str, T.Any]:
-    """checks of ONE command: returns violations [(key, what)], tags, statement pairs for the Lean comparison"""
+def oracle_step(bf: T.Any, af: T.Any, cmd: T.Dict[str, T.Any], status: str, meta: T.Dict[str, T.Any],
+                cap_applied: bool = False, nested: bool = False, cwd_root: bool = True) -> T.Dict[str, T.Any]:
+    """checks of ONE command over EVERY build file of the tree (`bf` / `af`: {path relative to the source root: text}):
+    returns violations [(key, what)], tags, statement pairs for the Lean comparison"""
+    bfiles: T.Dict[str, str] = {'meson.build': bf} if isinstance(bf, str) else dict(bf)
+    afiles: T.Dict[str, str] = {'meson.build': af} if isinstance(af, str) else dict(af)
+    bf, af = bfiles, afiles
     viol: T.List[T.Tuple[str, str]] = []
     tags: T.List[str] = []
     pairs: T.List[T.Dict[str, T.Any]] = []
@@ -78,10 +86,21 @@ def oracle_step(bf: str, af: str, cmd: T.Dict[str, T.Any], status: str, meta: T.
     op = cmd.get('operation')
     kind = f'{typ}:{op}'
     tags.append('cmd:' + kind)
-    uni = set(meta['pool']) | set(meta['extra_pool']) | {'new0.c', 'new1.c', 'new2.c', 'newe0.txt', 'newe1.txt'}
+    alldirs = sorted({os.path.dirname(f) for f in bfiles})
+    pool_all = set(meta['pool']) | set(meta['extra_pool']) | {'new0.c', 'new1.c', 'new2.c', 'newe0.txt', 'newe1.txt'} | \
+        set(meta.get('allfiles', []))
+
+    def spellings(path: str) -> T.Set[str]:
+        # every way a list in some directory of the tree can name the file `path` (relative to the source root)
+        return {path} | {os.path.relpath(path, d or '.') for d in alldirs}
+    uni: T.Set[str] = set()
+    for p_ in pool_all:
+        uni |= spellings(p_)
+    AD: T.Dict[str, T.Any] = {}
 
     try:
-        bst = R.flat_statements(R.parse(bf))
+        bv = R.View(bfiles)
+        bst = bv.stmts
     except Exception as e:   # an earlier command of the sequence already broke the file (reported there)
         tags.append('before-unparseable:' + type(e).__name__)
         return res
@@ -108,9 +127,9 @@ def oracle_step(bf: str, af: str, cmd: T.Dict[str, T.Any], status: str, meta: T.
             viol.append(('info-changed-files', 'an info command changed the build file'))
         return res
 
-    blines = R.logical_lines(bf)
-    seps = R.exotic_separators(bf)
-    rawnl = R.raw_newline_string_tokens(bf)
+    blines = {f: R.logical_lines(bfiles[f]) for f in bv.per_file}
+    seps = R.exotic_separators(''.join(bfiles.values()))
+    rawnl = any(R.raw_newline_string_tokens(t) for t in bfiles.values())
 
     # ---- which statement is addressed, what may change, what value is requested
     allowed: T.Set[int] = set()
@@ -130,14 +149,16 @@ def oracle_step(bf: str, af: str, cmd: T.Dict[str, T.Any], status: str, meta: T.
                 what = 'src' if op.startswith('src') else 'extra'
                 addressed = tb[0]
                 used: T.Set[int] = set()
-                fb = R.target_files(bst, tb[1], what, used)
+                fb = R.target_files(bst, tb[1], what, used, bv.dirs, bv.dirs[tb[0]])
                 allowed = {addressed} | used
-                cf = set(files)
+                req = {os.path.normpath(f_) for f_ in files}
+                for f_ in req:
+                    cf |= spellings(f_)
                 if what == 'extra':
                     keys = {'extra_files'}
                 shared = name in meta.get('shared', [])
                 scalar_extra = what == 'extra' and isinstance(R.kwarg(tb[1], 'extra_files'), R.mp().StringNode)
-                exp = (set(fb) | set(files)) if op.endswith('add') else (set(fb) - set(files))
+                exp = (set(fb) | req) if op.endswith('add') else (set(fb) - req)
                 res['target'] = name
                 res['what'] = what
 
@@ -145,7 +166,7 @@ def oracle_step(bf: str, af: str, cmd: T.Dict[str, T.Any], status: str, meta: T.
                     ta = R.find_target(ast_, name)
                     if ta is None:
                         return f'target {name} disappeared'
-                    fa = R.target_files(ast_, ta[1], what, set())
+                    fa = R.target_files(ast_, ta[1], what, set(), AD['dirs'], AD['dirs'][ta[0]])
                     if R.UNKNOWN in fb or R.UNKNOWN in fa:
                         tags.append('value-unknown')
                         return None
@@ -170,7 +191,7 @@ def oracle_step(bf: str, af: str, cmd: T.Dict[str, T.Any], status: str, meta: T.
                 structural = 'unchanged'
             else:
                 structural = 'append'
-                exp = set(files)
+                exp = {os.path.normpath(f_) for f_ in files}
                 res['target'] = name
                 res['what'] = 'src'
                 res['expected_files'] = sorted(exp)
@@ -179,7 +200,7 @@ def oracle_step(bf: str, af: str, cmd: T.Dict[str, T.Any], status: str, meta: T.
                     ta = R.find_target(ast_, name)
                     if ta is None:
                         return f'target {name} was not added'
-                    fa = R.target_files(ast_, ta[1], 'src', set())
+                    fa = R.target_files(ast_, ta[1], 'src', set(), AD['dirs'], AD['dirs'][ta[0]])
                     if set(fa) != exp:
                         return f'new target has sources {fa}, requested {sorted(exp)}'
                     if ta[1].func_name.value != cmd.get('target_type', 'executable'):
@@ -322,7 +343,14 @@ def oracle_step(bf: str, af: str, cmd: T.Dict[str, T.Any], status: str, meta: T.
             viol.append(('pointless-command-changed-files', f'{kind} addressed nothing but the build file changed'))
         return res
 
+    # process_target.rel_source: run inside the source root, a file that EXISTS is made relative to the target's
+    # subdir and then resolved from the root again (known finding) — only for targets defined in a subdirectory
+    subdir_target = typ == 'target' and op in ('src_add', 'src_rm', 'extra_files_add', 'extra_files_rm') and \
+        addressed is not None and bv.dirs[addressed] != '' and cwd_root
+
     def whole_file_cause() -> T.Optional[str]:
+        if subdir_target:
+            return 'subdir-target:existing-path-made-relative-to-subdir-then-resolved-from-root'
         if nested:
             return 'splice:edited-node-inside-another-edited-node'
         if seps:
@@ -333,12 +361,14 @@ def oracle_step(bf: str, af: str, cmd: T.Dict[str, T.Any], status: str, meta: T.
 
     # ---- (1) the touched file still parses
     try:
-        ast_ = R.flat_statements(R.parse(af))
+        av = R.View(afiles)
+        ast_ = av.stmts
+        AD['dirs'] = av.dirs
     except Exception as e:
         cause = whole_file_cause()
         hz: T.Set[str] = set()
         for i in sorted(allowed | ({addressed} if addressed is not None else set())):
-            hz |= R.hazards_in(bf, i)
+            hz |= R.hazards_in(bfiles[bv.where[i][0]], bv.where[i][1])
         what = f'after {kind} the build file no longer parses ({type(e).__name__})'
         if cause:
             viol.append((cause, what))
@@ -348,35 +378,46 @@ def oracle_step(bf: str, af: str, cmd: T.Dict[str, T.Any], status: str, meta: T.
         else:
             viol.append(('rewrite:file-no-longer-parses', what))
         return res
-    alines = R.logical_lines(af)
-
-    # ---- (2) every statement other than the edited one is textually unchanged
-    bt = [t for _l, t in blines]
-    at = [t for _l, t in alines]
-    allowed_lines = {_line_index(blines, bst[i].lineno) for i in allowed}
+    # ---- (2) every statement other than the edited one is textually unchanged — in EVERY build file of the tree
     loc_bad: T.Optional[str] = None
-    if structural == 'modify':
-        if len(bt) != len(at):
-            loc_bad = f'{len(bt)} logical lines before, {len(at)} after'
-        else:
-            for i, (x, y) in enumerate(zip(bt, at)):
-                if x != y and i not in allowed_lines:
-                    loc_bad = f'logical line {i} changed: {x[:60]!r} -> {y[:60]!r}'
-                    break
-    elif structural == 'append':
-        if at[:len(bt)] != bt:
-            loc_bad = 'an existing line changed when a target was added'
-        elif len(at) - len(bt) != 2:
-            loc_bad = f'{len(at) - len(bt)} lines appended for a new target'
-    elif structural == 'remove':
-        assert addressed is not None
-        li = _line_index(blines, bst[addressed].lineno)
-        tail = len(bt) - li - 1
-        mid = at[li:len(at) - tail] if tail else at[li:]
-        if at[:li] != bt[:li] or (tail and at[len(at) - tail:] != bt[li + 1:]):
-            loc_bad = 'a line other than the removed target changed'
-        elif any(not m.lstrip().startswith('#') for m in mid):
-            loc_bad = f'removing the target left {mid!r}'
+    if set(av.per_file) != set(bv.per_file):
+        loc_bad = f'build files {sorted(bv.per_file)} became {sorted(av.per_file)}'
+    touched = {bv.where[i][0] for i in allowed} | ({bv.where[addressed][0]} if addressed is not None else set())
+    if structural == 'append':
+        touched = {'meson.build'}
+    for fname in sorted(bv.per_file):
+        if loc_bad:
+            break
+        if fname not in touched:
+            if afiles.get(fname) != bfiles.get(fname):
+                loc_bad = f'build file {fname} was not addressed but changed'
+            continue
+        fbl = blines[fname]
+        bt = [t for _l, t in fbl]
+        at = [t for _l, t in R.logical_lines(afiles[fname])]
+        if structural == 'modify':
+            allowed_lines = {_line_index(fbl, bst[i].lineno) for i in allowed if bv.where[i][0] == fname}
+            if len(bt) != len(at):
+                loc_bad = f'{fname}: {len(bt)} logical lines before, {len(at)} after'
+            else:
+                for i, (x, y) in enumerate(zip(bt, at)):
+                    if x != y and i not in allowed_lines:
+                        loc_bad = f'{fname}: logical line {i} changed: {x[:60]!r} -> {y[:60]!r}'
+                        break
+        elif structural == 'append':
+            if at[:len(bt)] != bt:
+                loc_bad = 'an existing line changed when a target was added'
+            elif len(at) - len(bt) != 2:
+                loc_bad = f'{len(at) - len(bt)} lines appended for a new target'
+        elif structural == 'remove':
+            assert addressed is not None
+            li = _line_index(fbl, bst[addressed].lineno)
+            tail = len(bt) - li - 1
+            mid = at[li:len(at) - tail] if tail else at[li:]
+            if at[:li] != bt[:li] or (tail and at[len(at) - tail:] != bt[li + 1:]):
+                loc_bad = f'{fname}: a line other than the removed target changed'
+            elif any(not m.lstrip().startswith('#') for m in mid):
+                loc_bad = f'{fname}: removing the target left {mid!r}'
     if loc_bad:
         viol.append((whole_file_cause() or 'locality:other-statement-changed', f'{kind}: {loc_bad}'))
 
@@ -390,9 +431,12 @@ def oracle_step(bf: str, af: str, cmd: T.Dict[str, T.Any], status: str, meta: T.
             viol.append((whole_file_cause() or f'value:{kind}', f'{kind}: {msg}'))
 
     # ---- (4) every other argument of a re-printed statement is structurally the same
-    if structural == 'modify' and len(bst) == len(ast_):
-        for i, (x, y) in enumerate(zip(bst, ast_)):
-            k_i = keys if i == addressed else set()
+    for fname in sorted(bv.per_file):
+        fb_st, fa_st = bv.per_file[fname], av.per_file.get(fname, [])
+        if structural != 'modify' or len(fb_st) != len(fa_st):
+            continue
+        for i, (x, y) in enumerate(zip(fb_st, fa_st)):
+            k_i = keys if addressed is not None and bv.where[addressed] == (fname, i) else set()
             try:
                 sx, sy = R.ser(x), R.ser(y)
             except R.Unsupported:
@@ -402,11 +446,15 @@ def oracle_step(bf: str, af: str, cmd: T.Dict[str, T.Any], status: str, meta: T.
             ok, diffs = R.same_except(x, y, uni, cf, k_i)
             pairs.append({'uni': sorted(uni), 'cf': sorted(cf), 'keys': sorted(k_i), 'before': sx, 'after': sy, 'py': ok})
             tags.append('reprinted-statement')
+            if fname != 'meson.build':
+                tags.append('reprinted-statement:in-subdir')
             if not ok:
-                hz = R.hazards_in(bf, i, diffs)
+                hz = R.hazards_in(bfiles[fname], i, diffs)
                 cause = whole_file_cause()
-                what = f'{kind}: statement {i} differs at {diffs[:3]}'
-                if hz:
+                what = f'{kind}: {fname} statement {i} differs at {diffs[:3]}'
+                if subdir_target and cause:
+                    viol.append((cause, what))
+                elif hz:
                     for k in sorted(hz):
                         viol.append((k, what))
                 elif cause:
@@ -432,7 +480,14 @@ def run_case(case: T.Dict[str, T.Any]) -> T.Dict[str, T.Any]:
     cwd = os.getcwd()
     try:
         R.write_tree(root, files)
-        os.chdir(root)
+        # Rewriter.md: run inside the project root, or anywhere with --sourcedir. `outside`: a directory where none of the
+        # named files exists (process_target.rel_source then leaves the root-relative paths alone)
+        if case.get('cwd') == 'outside':
+            outside = os.path.join(root, '.elsewhere')
+            os.makedirs(outside, exist_ok=True)
+            os.chdir(outside)
+        else:
+            os.chdir(root)
         # printer tie: every statement of the project as the rewriter would print it
         if case.get('prints', True):
             try:
@@ -457,6 +512,7 @@ def run_case(case: T.Dict[str, T.Any]) -> T.Dict[str, T.Any]:
         for group in groups:
             before_all = R.read_tree(root)
             n0 = len(cap.applies)
+            r0 = len(cap.removals)
             status, sout, serr = R.run_rewriter(root, group)
             # per command of the group: before/after texts. In batch mode intermediate texts are reconstructed
             # from the hook records (text before each apply_changes is what the previous one wrote).
@@ -464,13 +520,25 @@ def run_case(case: T.Dict[str, T.Any]) -> T.Dict[str, T.Any]:
             recs = cap.applies[n0:]
             if mode == 'single':
                 # the rewriter (and meson) read build files with universal newlines; what it wrote is compared raw
-                bf = R.as_read(before_all.get('meson.build', ''))
-                af_raw = after_all.get('meson.build', '')
-                af = R.as_read(af_raw)
+                bf = {f: R.as_read(t) for f, t in before_all.items()}
+                af_raw = dict(after_all)
+                af = {f: R.as_read(t) for f, t in after_all.items()}
                 step = oracle_step(bf, af, group[0], status, meta, cap_applied=bool(recs),
-                                   nested=any(R.nested_works(r['works']) for r in recs))
+                                   nested=any(R.nested_works(r['works']) for r in recs),
+                                   cwd_root=case.get('cwd', 'root') != 'outside')
                 _collect(out, step, case, ci, group[0], bf, af, status)
                 _lean_apply(out, recs, bf, af_raw, root)
+                for rm in cap.removals[r0:]:
+                    if rm['cands'] is None or rm['removed'] is None or not rm['cands']:
+                        continue
+                    flat: T.List[str] = []
+                    for c_ in rm['cands']:
+                        flat += [enc(c_['relto']), enc_list(c_['strings'])]
+                    if any(s_ == '' for c_ in rm['cands'] for s_ in c_['strings']):
+                        continue
+                    for src in rm['srcs']:
+                        out['lean'].append(('pmatch', 'pmatch ' + '|'.join([enc(rm['root']), enc(src)] + flat), '',
+                                            {'rm': rm, 'src': src, 'case': _case_of(case, ci)}))
                 # `info` reports the value
                 if step['expected_files'] is not None and not step['viol'] and status == 'ok':
                     st2, so2, _se2 = R.run_rewriter(root, [{'type': 'target', 'target': step['target'], 'operation': 'info'}])
@@ -492,7 +560,7 @@ def run_case(case: T.Dict[str, T.Any]) -> T.Dict[str, T.Any]:
                     break     # the project is damaged: later commands would only report consequences
             else:
                 # batch: only the end state can be observed on disk; check the whole-run facts
-                bf, af = before_all.get('meson.build', ''), after_all.get('meson.build', '')
+                af = after_all.get('meson.build', '')
                 out['tags'].append('batch-run')
                 out['batch_final'] = af
                 ci += len(group)
@@ -505,8 +573,9 @@ def run_case(case: T.Dict[str, T.Any]) -> T.Dict[str, T.Any]:
 
 
 def _case_of(case: T.Dict[str, T.Any], upto: int) -> T.Dict[str, T.Any]:
-    return {'files': {'meson.build': case['files']['meson.build']}, 'cmds': case['cmds'][:upto + 1],
-            'meta': {k: case['meta'][k] for k in ('pool', 'extra_pool', 'shared')}, 'mode': 'single'}
+    return {'files': {f: t for f, t in case['files'].items() if os.path.basename(f) == 'meson.build'},
+            'cmds': case['cmds'][:upto + 1], 'cwd': case.get('cwd', 'root'),
+            'meta': {k: case['meta'][k] for k in ('pool', 'extra_pool', 'shared', 'allfiles') if k in case['meta']}, 'mode': 'single'}
 
 
 def _collect(out: T.Dict[str, T.Any], step: T.Dict[str, T.Any], case: T.Dict[str, T.Any], ci: int, cmd: T.Dict[str, T.Any],
@@ -532,28 +601,42 @@ def _collect(out: T.Dict[str, T.Any], step: T.Dict[str, T.Any], case: T.Dict[str
         out['lean'].append(('same', line, '1' if p['py'] else '0', _case_of(case, ci)))
 
 
-def _lean_apply(out: T.Dict[str, T.Any], recs: T.List[T.Dict[str, T.Any]], bf: str, af: str, root: str) -> None:
-    """the model's apply_changes on what the real one was given"""
-    main = os.path.realpath(os.path.join(root, 'meson.build'))
+def _lean_apply(out: T.Dict[str, T.Any], recs: T.List[T.Dict[str, T.Any]], bf: T.Dict[str, str], af: T.Dict[str, str], root: str) -> None:
+    """the model's apply_changes on what the real one was given, build file by build file"""
     for rec in recs:
-        works = [w for w in rec['works'] if w['file'] == main]
-        if len(works) != len(rec['works']) or any(w['tree'] is None for w in works) or len(recs) != 1:
+        if any(w['tree'] is None for w in rec['works']) or len(recs) != 1:
             out['tags'].append('apply-not-modelled')
             continue
-        fields = [enc(bf), str(rec['nm']), str(rec['nr'])]
-        for w in works:
-            fields += [w['meta'], w['tree']]
-        expected = ('ERR:' + rec['exc']) if rec['exc'] else enc(af)
-        out['lean'].append(('apply', 'apply ' + '|'.join(fields), expected, {'before': bf, 'works': works}))
+        byfile: T.Dict[str, T.List[int]] = {}
+        for i, w in enumerate(rec['works']):
+            byfile.setdefault(os.path.relpath(w['file'], os.path.realpath(root)), []).append(i)
+        if len(byfile) > 1:
+            out['tags'].append('apply:several-build-files')
+        for rel, idxs in sorted(byfile.items()):
+            if rel not in bf or rel not in af:
+                out['tags'].append('apply-not-modelled')
+                continue
+            if rel != 'meson.build':
+                out['tags'].append('apply:subdir-build-file')
+            works = [rec['works'][i] for i in idxs]
+            nm = sum(1 for i in idxs if i < rec['nm'])
+            nr = sum(1 for i in idxs if rec['nm'] <= i < rec['nm'] + rec['nr'])
+            fields = [enc(bf[rel]), str(nm), str(nr)]
+            for w in works:
+                fields += [w['meta'], w['tree']]
+            expected = ('ERR:' + rec['exc']) if rec['exc'] else enc(af[rel])
+            out['lean'].append(('apply', 'apply ' + '|'.join(fields), expected, {'before': bf[rel], 'works': works}))
+        works = rec['works']
         # the order in which the real apply_changes handled the printed work items vs the model's sorted order
         if rec['order'] is not None and -1 not in rec['order'] and not rec['exc']:
             printed = [i for i, w in enumerate(works) if not w['meta'].startswith('1,')]
             line = 'order ' + '|'.join([str(rec['nm']), str(rec['nr'])] + [w['meta'] for w in works])
-            out['lean'].append(('order', line, ','.join(str(i) for i in rec['order']), {'before': bf, 'works': works, 'printed': printed}))
+            out['lean'].append(('order', line, ','.join(str(i) for i in rec['order']), {'before': '', 'works': works, 'printed': printed}))
             if len(rec['order']) > 1:
                 out['tags'].append('multi-node-apply')
-                ms = [[int(x) for x in works[i]['meta'].split(',')] for i in rec['order'] if works[i]['meta'].startswith('0,')]
-                if any(a[2] == b[2] for a, b in zip(ms, ms[1:])):
+                ms = [[int(x) for x in works[i]['meta'].split(',')] + [works[i]['file']] for i in rec['order']
+                      if works[i]['meta'].startswith('0,')]
+                if any(a[2] == b[2] and a[-1] == b[-1] for a, b in zip(ms, ms[1:])):
                     out['tags'].append('multi-node-apply:same-line')
 
 
@@ -618,6 +701,26 @@ CORPUS_MESON = [
 ]
 
 
+_TREE = {'meson.build': "project('demo')\nsubdir('lib')\nprog = executable('prog', 'main.c', lib_srcs, lib_names)\nsubdir('app')\n",
+         'lib/meson.build': "lib_srcs = files('helper.c', 'util.c')\nlib_names = ['lib/main.c']\n",
+         'app/meson.build': "tool = executable('tool', 'main.c', files('../lib/helper.c'), '../util.c')  # keep\n"}
+CORPUS_TREES = [
+    # sources reaching the target through a files() list of another directory; same basenames in several directories
+    (_TREE, [{'type': 'target', 'target': 'prog', 'operation': 'src_rm', 'sources': ['lib/util.c']},
+             {'type': 'target', 'target': 'prog', 'operation': 'src_add', 'sources': ['lib/util.c']},
+             {'type': 'target', 'target': 'prog', 'operation': 'src_rm', 'sources': ['util.c']}], 'outside'),
+    (_TREE, [{'type': 'target', 'target': 'prog', 'operation': 'src_add', 'sources': ['lib/new0.c', 'app/new0.c']},
+             {'type': 'target', 'target': 'prog', 'operation': 'src_rm', 'sources': ['app/new0.c', 'lib/new0.c']},
+             {'type': 'target', 'target': 'prog', 'operation': 'src_rm', 'sources': ['lib/main.c']}], 'root'),
+    (_TREE, [{'type': 'target', 'target': 'tool', 'operation': 'src_rm', 'sources': ['lib/helper.c', 'util.c']},
+             {'type': 'target', 'target': 'tool', 'operation': 'src_add', 'sources': ['lib/new0.c']},
+             {'type': 'kwargs', 'function': 'target', 'id': 'tool', 'operation': 'set', 'kwargs': {'install': True}}], 'outside'),
+    # run inside the source root on a target defined in a subdirectory (known finding)
+    (_TREE, [{'type': 'target', 'target': 'tool', 'operation': 'src_add', 'sources': ['app/new0.c']}], 'root'),
+    (_TREE, [{'type': 'target', 'target': 'tool', 'operation': 'src_rm', 'sources': ['app/main.c']}], 'root'),
+]
+
+
 def corpus_cases() -> T.List[T.Dict[str, T.Any]]:
     out = []
     pool = ['s%d.c' % i for i in range(8)]
@@ -627,6 +730,13 @@ def corpus_cases() -> T.List[T.Dict[str, T.Any]]:
         files['meson.build'] = text
         out.append({'files': files, 'cmds': cmds, 'meta': {'pool': pool, 'extra_pool': epool, 'shared': [], 'targets': {},
                                                            'deps': {}, 'project': {}, 'hazard': 'corpus'}, 'mode': 'single'})
+    for tree, cmds, cwd in CORPUS_TREES:
+        allf = sorted(os.path.join(d, b) for d in ('', 'lib', 'app') for b in ('main.c', 'helper.c', 'util.c', 'new0.c'))
+        files = {f: '' for f in allf}
+        files.update(tree)
+        out.append({'files': files, 'cmds': cmds, 'mode': 'single', 'prints': False, 'cwd': cwd,
+                    'meta': {'pool': [], 'extra_pool': [], 'shared': [], 'targets': {}, 'deps': {}, 'project': {},
+                             'hazard': 'corpus', 'allfiles': allf}})
     cdir = os.path.join(common.VERIF, 'corpus', 'C17')
     if os.path.isdir(cdir):
         for f in sorted(os.listdir(cdir)):
@@ -643,11 +753,12 @@ def _inflate(c: T.Dict[str, T.Any]) -> T.Dict[str, T.Any]:
     """a stored case (build file + commands) -> runnable case"""
     pool = c.get('meta', {}).get('pool') or ['s%d.c' % i for i in range(8)]
     epool = c.get('meta', {}).get('extra_pool') or ['e%d.txt' % i for i in range(4)]
-    files = {f: '' for f in pool + epool + ['new0.c', 'new1.c', 'new2.c', 'newe0.txt', 'newe1.txt']}
+    allfiles = c.get('meta', {}).get('allfiles', [])
+    files = {f: '' for f in pool + epool + ['new0.c', 'new1.c', 'new2.c', 'newe0.txt', 'newe1.txt'] + list(allfiles)}
     files.update(c['files'])
-    return {'files': files, 'cmds': c['cmds'], 'mode': c.get('mode', 'single'), 'prints': False,
+    return {'files': files, 'cmds': c['cmds'], 'mode': c.get('mode', 'single'), 'prints': False, 'cwd': c.get('cwd', 'root'),
             'meta': {'pool': pool, 'extra_pool': epool, 'shared': c.get('meta', {}).get('shared', []), 'targets': {}, 'deps': {},
-                     'project': {}, 'hazard': 'replay'}}
+                     'project': {}, 'hazard': 'replay', 'allfiles': list(allfiles)}}
 
 
 # ================================================================================================ model-only streams
@@ -823,6 +934,8 @@ def _absorb(ctx: Ctx, cases: T.List[T.Dict[str, T.Any]], results: T.List[T.Dict[
                'reprinted-statement' in res['tags'])
         if 'file-changed' in res['tags']:
             ctx.seen_nontrivial((sig, hash(case['files']['meson.build'])))
+        if case['meta'].get('hazard') == 'tree':
+            ctx.tag('tree:cwd-' + case.get('cwd', 'root'))
         if len(ctx.samples) < 6 and 'file-changed' in res['tags']:
             ctx.sample({'meson.build': case['files']['meson.build'][:400], 'cmds': case['cmds']})
     if ctx.model_available and lean_lines:
@@ -830,6 +943,28 @@ def _absorb(ctx: Ctx, cases: T.List[T.Dict[str, T.Any]], results: T.List[T.Dict[
         for a, (kind, expected, c) in zip(ans, lean_exp):
             ctx.extra['disagreements_checked'] = ctx.extra.get('disagreements_checked', 0) + 1
             ctx.tag('lean:' + kind)
+            if kind == 'pmatch':
+                # the model's acceptable (list, element) positions for this requested file against what the real
+                # rm_src_or_extra removed: a removed string must be acceptable; when every acceptable one is removable
+                # (not shared with another target) exactly one of them must have gone
+                rm = c['rm']
+                model = [tuple(int(x) for x in p_.split(':')) for p_ in a.strip().split(',') if ':' in p_]
+                removed = [tuple(x) for x in rm['removed']]
+                mine = [x for x in removed if x in model]
+                alln = True
+                for (i_, j_) in model:
+                    alln = alln and rm['cands'][i_]['removable'][j_]
+                bad = None
+                if model and alln and len(mine) != 1:
+                    bad = f'model accepts {model}, the rewriter removed {mine}'
+                elif not model and False:
+                    bad = None
+                elif len(mine) > 1:
+                    bad = f'several strings removed for one file: {mine}'
+                ctx.tag('lean:pmatch:' + ('match' if model else 'no-match'))
+                if bad:
+                    ctx.disagreement({'kind': 'lean-pmatch', 'what': bad, 'src': c['src'], 'cands': rm['cands'], 'case': c['case']})
+                continue
             if kind == 'order':
                 # the model lists every queued item; the hook saw only the printed ones (removals print nothing)
                 a = ','.join(x for x in a.strip().split(',') if x.isdigit() and int(x) in c['printed'])
@@ -848,7 +983,8 @@ def run(ctx: Ctx) -> None:
     ctx.rule = ('a case is non-trivial when at least one command changed the build file; distinct = distinct '
                 '(command kinds, hazard class, build file text)')
     ctx.assumptions += [
-        'generated projects: one directory, LF line ends, ASCII identifiers; strings may contain quotes, backslashes, tabs, non-ASCII',
+        'generated projects: single directory and multi-directory trees, LF line ends, ASCII identifiers; strings may contain quotes, '
+        'backslashes, tabs, non-ASCII; trees are run with the cwd outside the source root (3 of 4) or inside it (1 of 4)',
         'right operands of and/or are never a parenthesised and/or of the same kind (associativity is not a meaning change)',
         'commands that the rewriter rejects (unknown target / option, target exists) must leave the files untouched',
         'a declined edit is tolerated only where the rewriter documents it cannot decide (source list shared by two targets, '
@@ -862,6 +998,8 @@ def run(ctx: Ctx) -> None:
     for i in range(nproj):
         hazard = hz_cycle[i % len(hz_cycle)] if i < 3 * len(hz_cycle) else rng.choice(hz_cycle)
         cases.append(make_case(rng, hazard, rng.choice([1, 1, 2, 3])))
+    for _ in range(ctx.scale(160, 1500)):
+        cases.append(G.gen_tree(rng, rng.choice([1, 2, 2, 3])))
     results = _pool_map(cases)
     prints = _absorb(ctx, cases, results)
     if ctx.model_available:
@@ -878,7 +1016,7 @@ def search(ctx: Ctx, disagreements: T.List[dict]) -> None:
     epool = ['e%d.txt' % i for i in range(4)]
     for d in disagreements[:20]:
         src = d.get('input') if d.get('kind') in ('print', 'newdata') else None
-        if d.get('kind') in ('lean-same', 'lean-listop'):
+        if d.get('kind') in ('lean-same', 'lean-listop', 'lean-pmatch'):
             cases.append(_inflate(d['case']))
         if not src or not isinstance(src, str) or ';' in src[:3]:
             continue
